@@ -235,6 +235,12 @@ def refusal_suite(ctx):
         k = rng.choice([nq - 1, nq - 2, nq + 1, nq + 2, nq])
         if k < 1:
             continue
+        if rng.random() < 0.4 and k < nq:
+            # the qubits the short mapping does not cover are used ONLY by measurements / resets, placed anywhere
+            specs = [s for s in specs if all(q < k for q in gen.spec_qubits(s))]
+            for _ in range(rng.randint(1, 2)):
+                q = rng.randrange(k, nq)
+                specs.insert(rng.randint(0, len(specs)), rng.choice([["measure", q, 0], ["reset", q]]))
         perm = list(range(k))
         rng.shuffle(perm)
         c = gen.build_circuit(nq, 1, specs)
